@@ -29,7 +29,7 @@ func allocEscapes(a *ssa.Alloc) bool {
 			}
 		case *ssa.UnOp, *ssa.DebugRef:
 		case *ssa.MakeClosure:
-			if closureEscapes(x) {
+			if closureEscapes(x) && !readOnlyCapture(x, a, 0) {
 				return true
 			}
 		default:
@@ -37,6 +37,39 @@ func allocEscapes(a *ssa.Alloc) bool {
 		}
 	}
 	return false
+}
+
+// readOnlyCapture: the closure (which may run anywhere, any time) only loads the captured variable, so nobody but
+// the allocating function ever writes the cell.
+func readOnlyCapture(mc *ssa.MakeClosure, v ssa.Value, depth int) bool {
+	if depth > 3 {
+		return false
+	}
+	fn, ok := mc.Fn.(*ssa.Function)
+	if !ok {
+		return false
+	}
+	for i, b := range mc.Bindings {
+		if b != v || i >= len(fn.FreeVars) {
+			continue
+		}
+		fv := fn.FreeVars[i]
+		if fv.Referrers() == nil {
+			continue
+		}
+		for _, r := range *fv.Referrers() {
+			switch x := r.(type) {
+			case *ssa.UnOp, *ssa.DebugRef:
+			case *ssa.MakeClosure:
+				if !readOnlyCapture(x, fv, depth+1) {
+					return false
+				}
+			default:
+				return false
+			}
+		}
+	}
+	return true
 }
 
 func closureEscapes(mc *ssa.MakeClosure) bool {
@@ -92,7 +125,7 @@ func (f *Frame) notePrivate(a *ssa.Alloc, ref string) {
 // restorePrivate re-installs the contents of private cells after a havoc (old = state before the havoc).
 func (f *Frame) restorePrivate(old *State) {
 	vc := f.vc
-	for _, pc := range f.root().priv {
+	for _, pc := range append(append([]privCell{}, f.root().priv...), f.root().frozen...) {
 		if _, ok := vc.comps[pc.comp]; !ok {
 			continue
 		}
@@ -109,6 +142,16 @@ func (f *Frame) restorePrivate(old *State) {
 // assign (directly or through a closure called inside the loop) keep the value they had on loop entry.
 func (f *Frame) restorePrivateUnwritten(li *loopInfo) {
 	vc := f.vc
+	for _, pc := range f.root().frozen {
+		if _, ok := vc.comps[pc.comp]; !ok {
+			continue
+		}
+		cur := vc.get(f.cur, pc.comp)
+		prev := vc.get(li.entryState, pc.comp)
+		if cur != prev {
+			vc.set(f.cur, pc.comp, store(cur, pc.ref, sel(prev, pc.ref)))
+		}
+	}
 	for _, pc := range f.root().priv {
 		if pc.alloc.Parent() != f.fn {
 			continue
@@ -217,4 +260,89 @@ func (f *Frame) loopStoreBases(li *loopInfo, comp string) []string {
 		}
 	}
 	return bases
+}
+
+// Frozen captured variables.  A closure reads a captured variable through its cell.  When the variable is assigned
+// exactly once in the enclosing function, that assignment precedes the creation of every closure capturing it, and
+// every capturing closure only reads it, nobody writes the cell during the closure's life: its content survives
+// calls to unknown code.
+func (f *Frame) noteFrozen(fv *ssa.FreeVar, ref string) {
+	pt, ok := fv.Type().Underlying().(*types.Pointer)
+	if !ok {
+		return
+	}
+	el := pt.Elem()
+	if isStruct(el) {
+		return
+	}
+	if _, isArr := el.Underlying().(*types.Array); isArr {
+		return
+	}
+	fn := fv.Parent()
+	parent := fn.Parent()
+	if parent == nil {
+		return
+	}
+	idx := -1
+	for i, x := range fn.FreeVars {
+		if x == fv {
+			idx = i
+		}
+	}
+	// the binding in the enclosing function
+	var src ssa.Value
+	for _, b := range parent.Blocks {
+		for _, in := range b.Instrs {
+			if mc, ok := in.(*ssa.MakeClosure); ok && mc.Fn == ssa.Value(fn) && idx < len(mc.Bindings) {
+				src = mc.Bindings[idx]
+			}
+		}
+	}
+	a, ok := src.(*ssa.Alloc)
+	if !ok || a.Referrers() == nil {
+		return
+	}
+	var stores []*ssa.Store
+	var closures []*ssa.MakeClosure
+	for _, r := range *a.Referrers() {
+		switch x := r.(type) {
+		case *ssa.Store:
+			if x.Val == ssa.Value(a) {
+				return
+			}
+			stores = append(stores, x)
+		case *ssa.UnOp, *ssa.DebugRef:
+		case *ssa.MakeClosure:
+			if !readOnlyCapture(x, a, 0) {
+				return
+			}
+			closures = append(closures, x)
+		default:
+			return
+		}
+	}
+	if len(stores) != 1 {
+		return
+	}
+	st := stores[0]
+	for _, mc := range closures {
+		if st.Block() == mc.Block() {
+			si, mi := -1, -1
+			for i, in := range st.Block().Instrs {
+				if in == ssa.Instruction(st) {
+					si = i
+				}
+				if in == ssa.Instruction(mc) {
+					mi = i
+				}
+			}
+			if si > mi {
+				return
+			}
+		} else if !st.Block().Dominates(mc.Block()) {
+			return
+		}
+	}
+	r := f.root()
+	r.frozen = append(r.frozen, privCell{f.vc.regCell(el), ref, nil})
 }
